@@ -198,6 +198,74 @@ func registerStringModels(e *Engine) {
 	}
 }
 
+func registerStrconvModels(e *Engine) {
+	allConc := func(vs ...Value) bool {
+		for _, v := range vs {
+			if sv, ok := v.(*StrVal); ok && !sv.IsConcrete() {
+				return false
+			}
+		}
+		return true
+	}
+	e.intrinsics["strconv.CanBackquote"] = func(x *Exec, fn *ssa.Function, a []Value) (Value, bool) {
+		if allConc(a...) {
+			return nil, false
+		}
+		s := a[0].(*StrVal)
+		r := TFalse
+		for _, al := range s.Alts {
+			ok := TTrue
+			for i := 0; i < al.Len(); i++ {
+				b := al.Byte(i)
+				bad := tOrN(tEq(b, mkBV(8, '`')), tEq(b, mkBV(8, 0x7f)), tAnd(bvCmp(OpULt, b, mkBV(8, 0x20)), tNot(tEq(b, mkBV(8, '\t')))))
+				ok = tAnd(ok, tNot(bad))
+			}
+			r = tOr(r, tAnd(al.G, ok))
+		}
+		return r, true
+	}
+	e.intrinsics["strconv.Quote"] = func(x *Exec, fn *ssa.Function, a []Value) (Value, bool) {
+		if allConc(a...) {
+			return nil, false
+		}
+		al := x.pickAlt(a[0].(*StrVal))
+		out := []*Term{mkBV(8, '"')}
+		esc := func(c byte) { out = append(out, mkBV(8, '\\'), mkBV(8, uint64(c))) }
+		for i := 0; i < al.Len(); i++ {
+			b := al.Byte(i)
+			switch {
+			case x.decide(tEq(b, mkBV(8, '"'))):
+				esc('"')
+			case x.decide(tEq(b, mkBV(8, '\\'))):
+				esc('\\')
+			case x.decide(tEq(b, mkBV(8, '\n'))):
+				esc('n')
+			case x.decide(tEq(b, mkBV(8, '\t'))):
+				esc('t')
+			case x.decide(tEq(b, mkBV(8, '\r'))):
+				esc('r')
+			case x.decide(tAnd(bvCmp(OpULe, mkBV(8, 0x20), b), bvCmp(OpULt, b, mkBV(8, 0x7f)))):
+				out = append(out, b)
+			default:
+				panic(unsupported("strconv.Quote of a symbolic control or non-ASCII byte"))
+			}
+		}
+		out = append(out, mkBV(8, '"'))
+		return mkStrBytes(out), true
+	}
+	e.intrinsics["unicode/utf8.DecodeRuneInString"] = func(x *Exec, fn *ssa.Function, a []Value) (Value, bool) {
+		if allConc(a...) {
+			return nil, false
+		}
+		al := x.pickAlt(a[0].(*StrVal))
+		if al.Len() == 0 {
+			return TupleVal{mkBV(32, 0xFFFD), mkBV(64, 0)}, true
+		}
+		r, n := x.decodeRune(al, 0)
+		return TupleVal{r, mkBV(64, uint64(n))}, true
+	}
+}
+
 func asciiLower(s string) string {
 	b := []byte(s)
 	for i, c := range b {
